@@ -25,6 +25,20 @@ Proof.
   intros k o o'. exact (fused parse size Hs Hr d Hd k o o').
 Qed.
 
+(* the whole next() sequence, for any number of calls: the j-th call returns get(j) while
+   j < len and None ever after (re-polling an exhausted iterator never yields again) *)
+Theorem C09_next_sequence : forall (T : Type) (parse : buf -> M T) (size : N),
+  0 < size -> regular size parse -> forall d, buf_ok d -> forall m : nat,
+  fst (iter_nexts parse m d 0) = map (fun j => res_ok (table_get parse size d (N.of_nat j))) (seq 0 m).
+Proof. exact @nexts_spec. Qed.
+(* the provided Iterator::nth (hence skip / step_by, which are built from next and nth) after k
+   calls of next(): the (k+n)-th entry or None -- relative to the iterator's position *)
+Theorem C09_nth : forall (T : Type) (parse : buf -> M T) (size : N),
+  0 < size -> regular size parse -> forall d, buf_ok d ->
+  forall (fuel : nat) n k, k <= table_len size d -> (N.to_nat (table_len size d - k) < fuel)%nat ->
+  fst (it_nth parse fuel n d (k * size)) = res_ok (table_get parse size d (k + n)).
+Proof. exact @nth_spec. Qed.
+
 (* repeated / re-ordered accesses return the same values: get and the iteration are functions
    of (bytes, index) only -- there is no state; in the model this is true by typing. *)
 
